@@ -175,30 +175,54 @@ Print Assumptions c14_confined_pinned_refuted.
 
 (* ---- composition in ServerManager -------------------------------------------- *)
 
+(* serveHls, one request, EVERY query string: the request gets past the gates (is seen by
+   hls.ServerHandler) <-> (playlist request: hls_m3u8_enable is off or the URL carries the
+   secret) and its address is not black-listed.  The right-hand side mentions nothing else:
+   session_id or any other parameter, the session table, the sub-session switch [sub] and
+   the clock play no part; a fragment request needs no secret (lal's design). *)
+Theorem c14_hls_admission : forall md5raw parse_query lower_uni parse_query_all cfg sub root st now ip path q,
+  reaches_handler (snd (serve_hls md5raw parse_query lower_uni parse_query_all cfg sub root st now ip path q)) <->
+  ((beq (snd (filename_and_type (last_item_of_path path))) s_m3u8 = true ->
+    sa_hls_m3u8 cfg = false \/
+    carries_secret md5raw parse_query lower_uni cfg (ri_stream (get_request_info path root)) q)
+   /\ snd (bl_has (hs_bl st) ip now) = false).
+Proof. exact hls_admission. Qed.
+Print Assumptions c14_hls_admission.
+
+(* ... and "carries the secret" looks at the first lal_secret value only: query strings
+   whose parses agree on it are treated alike whatever else they contain (extra parameters
+   in any position, session_id, duplicates, order) *)
+Theorem c14_secret_first_value : forall md5raw parse_query lower_uni cfg stream q1 q2 l1 l2,
+  parse_query q1 = Some l1 -> parse_query q2 = Some l2 ->
+  query_get l1 secret_name = query_get l2 secret_name ->
+  (carries_secret md5raw parse_query lower_uni cfg stream q1 <-> carries_secret md5raw parse_query lower_uni cfg stream q2).
+Proof. exact carries_secret_first_value. Qed.
+Print Assumptions c14_secret_first_value.
+
 (* serveHls, whole histories: after add_ip_blacklist(ip, dur) at time now, NO request of
    that address - playlist or fragment, either URL form, any query, simple auth on or
-   off - is answered with HLS content for any history of requests (of any address),
-   black-listings of other addresses and clock advances, until now+dur has passed *)
-Theorem c14_hls_blacklisted_no_content : forall md5raw parse_query lower_uni cfg root t ip dur now ops,
+   off, sub-session feature on or off - is answered with HLS content or given a session,
+   for any history of requests (of any address), black-listings of other addresses and
+   clock advances, until now+dur has passed *)
+Theorem c14_hls_blacklisted_no_content : forall md5raw parse_query lower_uni parse_query_all cfg sub root st ip dur now ops,
+  let st1 := mk_hls_state (bl_add (hs_bl st) ip dur now) (hs_sessions st) (hs_next st) in
   Forall (sh_op_ok ip) ops -> (sh_total_sleep ops <= dur)%Z ->
   Forall (fun kr => fst kr = ip -> no_content (snd kr))
-         (sh_run_tagged md5raw parse_query lower_uni cfg root (bl_add t ip dur now) now ops)
-  /\ map snd (sh_run_tagged md5raw parse_query lower_uni cfg root (bl_add t ip dur now) now ops)
-     = sh_run md5raw parse_query lower_uni cfg root (bl_add t ip dur now) now ops.
+         (sh_run_tagged md5raw parse_query lower_uni parse_query_all cfg sub root st1 now ops)
+  /\ map snd (sh_run_tagged md5raw parse_query lower_uni parse_query_all cfg sub root st1 now ops)
+     = sh_run md5raw parse_query lower_uni parse_query_all cfg sub root st1 now ops.
 Proof.
   intros. split; [|apply sh_run_tagged_snd].
-  apply (hls_blacklisted_no_content md5raw parse_query lower_uni cfg root ops _ now ip (now + dur)%Z);
+  apply (hls_blacklisted_no_content md5raw parse_query lower_uni parse_query_all cfg sub root ops _ now ip (now + dur)%Z);
     [apply lookup_add_same|assumption|]. now apply Zplus_le_compat_l.
 Qed.
 Print Assumptions c14_hls_blacklisted_no_content.
 
-(* whatever serveHls serves lies inside the root, was not black-listed at that moment
-   and, for a playlist, passed simple auth *)
-Theorem c14_hls_served_confined : forall md5raw parse_query lower_uni cfg root t now ip path q t' p,
-  root <> [] -> serve_hls md5raw parse_query lower_uni cfg root t now ip path q = (t', HrFile p) ->
-  inside root p /\ snd (bl_has t ip now) = false /\
-  (beq (snd (filename_and_type (last_item_of_path path))) s_m3u8 = true ->
-   on_hls md5raw parse_query lower_uni cfg (ri_stream (get_request_info path root)) q = SaOk).
+(* whatever serveHls serves lies inside the root and got past both gates *)
+Theorem c14_hls_served_confined : forall md5raw parse_query lower_uni parse_query_all cfg sub root st now ip path q st' p,
+  root <> [] -> serve_hls md5raw parse_query lower_uni parse_query_all cfg sub root st now ip path q = (st', HrFile p) ->
+  inside root p /\
+  reaches_handler (snd (serve_hls md5raw parse_query lower_uni parse_query_all cfg sub root st now ip path q)).
 Proof. exact hls_served_confined. Qed.
 Print Assumptions c14_hls_served_confined.
 
